@@ -256,7 +256,12 @@ def run(ctx):
                     meta.append(("pg", {"rows": ch["rows"], "col": ch["col"], "first_page": ch["pages"][0]}, ch["pages"]))
         elif obs and "error" in obs and res["outcome"] == "ok":
             ctx.broken.append({"kind": "harness-error", "name": "observe", "detail": obs["error"]})
-    outs = pq.batch(cmds)
+    uniq = {}
+    for c in cmds:                       # the same (rows, first page) / (n, request) pairs occur thousands of times
+        uniq.setdefault(json.dumps(c), c)
+    ukeys = list(uniq)
+    uouts = dict(zip(ukeys, pq.batch([uniq[k] for k in ukeys])))
+    outs = [uouts[json.dumps(c)] for c in cmds]
     for (kind, case, impl), mo in zip(meta, outs):
         if kind == "rg":
             # empty row groups are not written (make_row_group returns None for 0 rows)
@@ -307,7 +312,14 @@ def replay_function_case(case):
             impl = wlevels.nonull_block(n, dpv)
             want = bytes(pq.call("wr_defs_nonull", dpv, n))
             print("make_definitions(%d rows, no nulls, v%d): %s; block that decodes to %d ones: %s" % (n, dpv, impl.hex(), n, want.hex()))
-            return 0 if impl == want else 1
+            skip_ok = True
+            if dpv == 1:
+                from fastparquet import core
+                io = wlevels.FakeIO()
+                core.skip_definition_bytes(io, n)
+                skip_ok = io.pos == len(impl)
+                print("skip_definition_bytes(%d) moves the cursor by %d, the block has %d bytes" % (n, io.pos, len(impl)))
+            return 0 if impl == want and skip_ok else 1
         if "encode_dict" in case and case.get("codes") == "fake length":
             from fastparquet import writer
             k = int(case["encode_dict"][3:]) // 8
